@@ -196,6 +196,9 @@ func (ex *Exec) assumeWF(st *State, v Value) {
 			if n, ok := l.Typ.(*types.Named); ok {
 				// a non-nil value of a named interface type implements it
 				st.assume(Implies(Ne(x, Int(0)), UF("implements."+typeKey(n), SBool, x)))
+				if inRepoType(n) {
+					ex.implementsFacts(st, n)
+				}
 			}
 			var isDec []*Term
 			for _, pt := range ex.repoPtrTags() {
@@ -208,6 +211,10 @@ func (ex *Exec) assumeWF(st *State, v Value) {
 			st.assume(And(Le(Int(0), UF("slen", SInt, x)), Le(UF("slen", SInt, x), IntB(pow2[62]))))
 		}
 	}
+}
+
+func inRepoType(n *types.Named) bool {
+	return n.Obj().Pkg() != nil && strings.HasPrefix(n.Obj().Pkg().Path(), "github.com/jeroenrinzema/psql-wire")
 }
 
 func (ex *Exec) newObj(st *State) *Term {
